@@ -11,6 +11,9 @@ pub mod c06;
 pub mod c07;
 pub mod c08;
 pub mod c09;
+pub mod c11;
+pub mod c12;
+pub mod elfgen;
 pub mod c16;
 pub mod c17;
 pub mod c19;
@@ -31,6 +34,8 @@ pub fn dispatch(id: &str, ctx: &Ctx) -> Option<i32> {
         "C07" => c07::run(ctx),
         "C08" => c08::run(ctx),
         "C09" => c09::run(ctx),
+        "C11" => c11::run(ctx),
+        "C12" => c12::run(ctx),
         "C16" => c16::run(ctx),
         "C17" => c17::run(ctx),
         "C19" => c19::run(ctx),
